@@ -1,5 +1,5 @@
 """What MANIFEST.json claims per property."""
-HOOK_COMMITS = []
+HOOK_COMMITS = ["cdddc02"]
 NOT_YET = {}
 _corr = ("Assumes: the hand-written Lean model mirrors the Rust code (checked on every run by the differential "
          "correspondence run, not proved); Lean kernel + axioms propext/Classical.choice/Quot.sound; ")
@@ -103,4 +103,25 @@ CLAIMS = {
     design_ref="DESIGN.md §3 C02",
     note=_corr + "as C01; list-level Dual2 -> jet refinement not proved (partial).",
     technique="Lean 4 + Mathlib proof of second-order jet soundness + differential correspondence with symmetry oracle"),
+ "C11": dict(
+    text="Lean 4 theorems: index_left terminates and returns the clamped bracketing interval for every list of >= 2 nodes "
+         "and every query (C11_index_left, by induction over the recursive bisection incl. its n == 3 special case), which "
+         "is unique for strictly increasing nodes (C11_index_left_unique, _cases); every look-up uses exactly that interval "
+         "(C11_interval_used); flat rules return a node value itself (C11_flat_exact, every scalar type); over ℝ the "
+         "straight-line, log-linear and zero-rate closed forms hit their nodes and the first two stay between them "
+         "(C11_linear, C11_log_linear, C11_zero_rate); supply order is irrelevant (C11_order_irrelevant).",
+    design_ref="DESIGN.md §3 C11",
+    note=_corr + "timestamps modelled as Int seconds; i64 -> f64 conversion exact below 2^53.",
+    technique="Lean 4 proof (induction over the bisection, sorting lemmas, real analysis) + differential correspondence"),
+ "C12": dict(
+    text="Lean 4 theorems: any sequence of order switches keeps every node value and date bit for bit "
+         "(C12_values_invariant), tags of a float curve are <id><i> in date order (C12_tags), 1<->2 keep names "
+         "(C12_keep_names), looked-up values are order-independent bit for bit for the smooth rules "
+         "(C12_lookup_value_invariant), index value = base / value, 0 before the first node, error without base "
+         "(C12_index_value), straight-line sensitivities are the true derivatives via C01 (C12_grad_linear) and vanish "
+         "for nodes outside the interval (C12_local). Log-linear / zero-rate sensitivities and all Hessians: "
+         "correspondence + C01/C02 rules (partial).",
+    design_ref="DESIGN.md §3 C12",
+    note=_corr + "gradient theorem stated for the straight-line rule; the other rules compose the C01-proved exp/log rules.",
+    technique="Lean 4 proof over state-machine model of set_ad_order + differential correspondence"),
 }
